@@ -17,8 +17,10 @@ package main
 
 import (
 	"bytes"
+	"compress/zlib"
 	"errors"
 	"fmt"
+	"github.com/pierrec/lz4/v4"
 	"io"
 	"net/http"
 	"net/http/httptest"
@@ -82,7 +84,8 @@ func genEventHeader(r *hx.Rng) []byte {
 	return []byte(s)
 }
 
-var validLines = []string{"a:1|c", "b.c:2.5|ms|@0.5", "g:3|g|#x,y:z", "s:u1|s", "h:4|h|#t", "_e{1,1}:a|b", "_e{2,3}:ab|x\\n|p:low|#q", "a/b c:1|c|@0.1|#k:v", "$$x:5|c"}
+var validLines = []string{"t:1|c|#host", "t:1|c|#env:prod,host", "t:1|c|#host:", "t:1|g|#:", "t:1|c|#host:a:b", "t:1|ms|#,", "u:1|g|#hostx", "t:1|c|#h,host,host:x",
+	"a:1|c", "b.c:2.5|ms|@0.5", "g:3|g|#x,y:z", "s:u1|s", "h:4|h|#t", "_e{1,1}:a|b", "_e{2,3}:ab|x\\n|p:low|#q", "a/b c:1|c|@0.1|#k:v", "$$x:5|c"}
 
 func sprinkleNul(r *hx.Rng, b []byte) []byte {
 	out := append([]byte{}, b...)
@@ -232,14 +235,39 @@ func unmarshalOK(path string, b []byte) bool {
 	return proto.Unmarshal(b, &m) == nil
 }
 
+// The oracle asks the libraries themselves (never the repository's wrappers in pkg/web/compression.go,
+// which are code under test).
+func libZlib(b []byte) (out []byte, err error) {
+	defer func() {
+		if e := recover(); e != nil {
+			out, err = nil, fmt.Errorf("panic: %v", e)
+		}
+	}()
+	zr, err := zlib.NewReader(bytes.NewReader(b))
+	if err != nil {
+		return nil, err
+	}
+	defer zr.Close()
+	return io.ReadAll(zr)
+}
+
+func libLz4(b []byte) (out []byte, err error) {
+	defer func() {
+		if e := recover(); e != nil {
+			out, err = nil, fmt.Errorf("panic: %v", e)
+		}
+	}()
+	return io.ReadAll(lz4.NewReader(bytes.NewReader(b)))
+}
+
 func libAnswers(path string, body []byte) (z, l, i int) {
-	if d, err := web.DecompressWithZlib(body); err == nil {
+	if d, err := libZlib(body); err == nil {
 		z = 1
 		if unmarshalOK(path, d) {
 			z = 2
 		}
 	}
-	if d, err := web.DecompressWithLz4(body); err == nil {
+	if d, err := libLz4(body); err == nil {
 		l = 1
 		if unmarshalOK(path, d) {
 			l = 2
@@ -270,6 +298,31 @@ func genHTTP(r *hx.Rng) (string, string) {
 	}
 	bodyEnc := hx.Pick(r, []string{"", "deflate", "lz4"}) // how the body really is encoded
 	body := compress(bodyEnc, plain)
+	if bodyEnc == "lz4" && r.Chance(1, 2) {
+		// frames written by the library itself with header options the forwarder never uses: a declared
+		// content size (honest, off by one, absurdly large), content checksum on/off, other block sizes
+		var out bytes.Buffer
+		w := lz4.NewWriter(&out)
+		opts := []lz4.Option{lz4.ChecksumOption(r.Bool())}
+		switch r.Intn(5) {
+		case 0:
+			opts = append(opts, lz4.SizeOption(uint64(len(plain))))
+		case 1:
+			opts = append(opts, lz4.SizeOption(uint64(len(plain))+1))
+		case 2:
+			opts = append(opts, lz4.SizeOption(1<<62))
+		case 3:
+			opts = append(opts, lz4.SizeOption(1<<63-1))
+		}
+		if r.Bool() {
+			opts = append(opts, lz4.BlockSizeOption(hx.Pick(r, []lz4.BlockSize{lz4.Block64Kb, lz4.Block256Kb, lz4.Block1Mb})))
+		}
+		if err := w.Apply(opts...); err == nil {
+			_, _ = w.Write(plain)
+			_ = w.Close()
+			body = out.Bytes()
+		}
+	}
 	kind := "valid"
 	switch r.Intn(5) {
 	case 0:
